@@ -2,7 +2,8 @@
 C03 — A pattern accepts exactly the headers of its short/long-form language.
 Property theorems only; helper lemmas in ScpiVerif/Lemmas/Match.lean.
 
-`Spec.Pattern.parsePattern` reads a pattern text of the property's grammar (mandatory keywords,
+`Spec.Pattern.parsePattern` reads a pattern text of the property's grammar (KEY := an upper-case
+letter followed by letters, digits, '_'; common mnemonics contain no lower-case letter; mandatory keywords,
 individually optional keywords `[:KEY]`, numeric-suffix keywords `KEY#`, optional trailing `?`,
 common `*XXX` patterns); `Spec.Pattern.accepts` lists every reading of a header in the pattern's
 language; `Spec.Pattern.wellFormed` is the side condition "no optional keyword can be mistaken for
@@ -14,6 +15,7 @@ import ScpiVerif.Lemmas.Match
 
 namespace ScpiVerif.Props.C03
 open ScpiVerif ScpiVerif.Match ScpiVerif.Spec.Pattern
+open ScpiVerif.Lexer (Bytes)
 
 /-- the header alphabet of the lexer: letters, digits, '_', ':', '?', '*' -/
 def headerAlphabet (b : UInt8) : Bool := isKwChar b || b == 58 || b == 63 || b == 42
@@ -44,7 +46,8 @@ theorem numbers_spec (pat : Bytes) (p : Pat) (hp : parsePattern pat = some p)
     r.1 = !(accepts p hdr).isEmpty ∧
     (r.1 = true → ∃ sol ∈ accepts p hdr, r.2.1 = expectedNumbers nums sol dflt) ∧
     r.2.2 = false :=
-  Lemmas.Match.numbers_spec pat p hp hwf hdr hh nums dflt hsmall
+  Lemmas.Match.numbers_spec pat p hp hwf hdr hh nums dflt hsmall expectedNumbers
+    (fun nums sol d => Lemmas.Match.fill_zero_map nums sol d _ (fun o => by cases o <;> rfl))
 
 /-- under the side condition a header has at most one reading -/
 theorem reading_unique (p : Pat) (hwf : wellFormed p.kws = true) (hdr : Bytes) :
@@ -54,5 +57,21 @@ theorem reading_unique (p : Pat) (hwf : wellFormed p.kws = true) (hdr : Bytes) :
 example : parsePattern [91,58,77,69,65,83,117,114,101,93,58,86,79,76,84,97,103,101,35,58,68,67,63] ≠ none := by decide
 example : (matchCommand [91,58,77,69,65,83,117,114,101,93,58,86,79,76,84,97,103,101,35,58,68,67,63]
     [118,111,108,116,49,50,58,100,99,63] 10 (some [-777, -777]) 1).1 = true := by decide
+
+-- the reading of the header above, as the spec sees it
+example : ∃ p, parsePattern [91,58,77,69,65,83,117,114,101,93,58,86,79,76,84,97,103,101,35,58,68,67,63] = some p ∧
+    wellFormed p.kws = true ∧ accepts p [118,111,108,116,49,50,58,100,99,63] = [[some 12]] :=
+  ⟨_, rfl, by decide, by decide⟩
+
+/- Patterns the grammar excludes.  The library's convention is that the part of a keyword before
+its first lower-case letter is its short form, so a keyword must start with an upper-case letter
+and a common (`*`) mnemonic must contain no lower-case letter.  For a pattern breaking the
+convention the short form degenerates and matchCommand accepts a header that spells nothing:
+"*" for the pattern "*idn" (short form "*"), the empty header for the pattern "a" (empty short
+form).  Such patterns are outside the grammar of the property. -/
+example : parsePattern [42, 105, 100, 110] = none := by decide      -- "*idn"
+example : parsePattern [97] = none := by decide                     -- "a"
+example : (matchCommand [42, 105, 100, 110] [42] 1 none 0).1 = true := by decide   -- "*idn" accepts "*"
+example : (matchCommand [97] [] 0 none 0).1 = true := by decide                    -- "a" accepts ""
 
 end ScpiVerif.Props.C03
